@@ -8,6 +8,11 @@ back, nothing else may change, and the new bytes must again carry valid lengths 
 reference dissector walks the emitted bytes: every length field must delimit exactly what follows it, every
 Internet checksum must equal the RFC 1071 reference (pvf/ref/rfc1071.py), and the innermost payload must sit
 where the headers say.  Every spec with a free payload is executed for both parities of the payload length.
+
+Headers the library assembles in a format its parser documents it does not decode (ARP other than Ethernet / IPv4, IGMP message
+types it has no layout for) are a class of their own: the parse must stop at that header (an object of the header's class with
+parsed == False, or the header's wire bytes kept as the enclosing header's payload), and serialising the parsed result -- as
+it is, after an edit of an enclosing header, and under a new IP header -- must carry that header's bytes through unchanged.
 """
 import re
 import traceback
@@ -42,14 +47,23 @@ ASSUMPTIONS = [
   "re-parenting clause (NAT / proxy pattern): the payload of a parsed and of a freshly assembled packet is attached under a newly built IP header "
   "with other addresses (same IP version, keeping options / extension headers; the other IP version for TCP / UDP directly under Ethernet / VLAN, "
   "with the ethertype updated by the caller); quoted datagrams inside ICMP errors are not re-addressed; the 802.3 length is the caller's",
+  "undecoded-header class: an ARP header with hardware type != 1, protocol type != 0x0800 or hardware address length != 6 (addresses then given "
+  "as bytes of that length; protocol address length stays 4, the only width arp.hdr() can emit) and an IGMP header of a type other than 0x11 / "
+  "0x12 / 0x16 / 0x17 / 0x22 are outside what the arp / igmp classes say they decode: 'equal header fields' is then not demanded of the "
+  "format-dependent part (for ARP the five leading fields are still compared when the body has the class's minimum 28 octets), parsed == False "
+  "or raw bytes in the header's place are both accepted, and the byte-level clauses (repack, edit of an enclosing header, re-parenting) apply in full",
 ]
 EXHAUSTIVE_SCOPE = {
   "quick": "the catalog of one minimal instance per protocol / message kind (pvf.ref.pktdissect.catalog), each with payload lengths 0, 1, 6, 7; "
            "UDP/TCP/ICMP/ICMPv6 over IPv4/IPv6 with payloads constructed so that the checksum computes to 0x0000 and so that the "
            "end-around carry must be folded twice; every variable-length element (LLDP TLVs, IPv4/TCP option areas, DHCP option values incl. the "
            ">255 split, DNS labels/names, IPv6 extension headers, ND options, IGMPv3 source/aux lists and record counts, RIP entries, GRE "
-           "source route entries, MPLS depth) at min, max, max-1 and a boundary in between",
-  "thorough": "as quick plus payload lengths 2..64, 1499, 1500 for every catalog entry with a free payload",
+           "source route entries, MPLS depth) at min, max, max-1 and a boundary in between; the undecoded-header grid: ARP hardware type in "
+           "{0, 2, 6, 15, 32, 256, 65535}, protocol type in {0, 8, 0x0801, 0x0805, 0x86dd, 0xffff}, hardware address length in {0, 1, 5, 7, 8, 20, 254, "
+           "255}, two combinations, x Ethernet / VLAN x opcode {1, 2, 3 (RARP ethertype), 65535} x trailing bytes {0, 17, 18}; 14 undecoded "
+           "IGMP types x body lengths {0, 1, 12} x Ethernet / VLAN",
+  "thorough": "as quick plus payload lengths 2..64, 1499, 1500 for every catalog entry with a free payload; undecoded-header grid with trailing bytes "
+              "{0, 2, 3, 17, 18, 46, 47} and IGMP body lengths up to 1400",
 }
 
 _L = None
@@ -259,6 +273,10 @@ def assemble(spec, i=0):
       ln += 5
     return attach(pkt.llc(length=ln, **kw))
   if t == "arp":
+    if "hwlen" in rec:            # other hardware address widths: the class takes the addresses as bytes and the length as a field
+      return attach(pkt.arp(hwtype=rec.get("hwtype", 1), prototype=rec.get("prototype", 0x0800), opcode=rec["op"], hwlen=rec["hwlen"],
+                            hwsrc=bytes(rec["sha"]), hwdst=bytes(rec["tha"]),
+                            protosrc=IPAddr(bytes(rec["spa"])), protodst=IPAddr(bytes(rec["tpa"]))))
     return attach(pkt.arp(hwtype=rec.get("hwtype", 1), prototype=rec.get("prototype", 0x0800), opcode=rec["op"],
                           hwsrc=EthAddr(bytes(rec["sha"])), hwdst=EthAddr(bytes(rec["tha"])),
                           protosrc=IPAddr(bytes(rec["spa"])), protodst=IPAddr(bytes(rec["tpa"]))))
@@ -546,6 +564,49 @@ def _carrier(d, off):
   return cur
 
 
+# --------------------------------------------------------------------------- headers the parser leaves undecoded
+#
+# The library can assemble some headers in formats its own parser documents it does not decode: pox.lib.packet.arp decodes the
+# Ethernet / IPv4 format only (RFC 826 ar$hrd = 1, ar$hln = 6, ar$pro = 0x0800, ar$pln = 4), pox.lib.packet.igmp decodes
+# IGMPv1 / v2 query, report, leave and the v3 report.  For those the property is judged as far as it can hold: the parse must
+# stop AT that header (same class, the fields in front of the format-dependent part equal, nothing invented below it), and
+# serialising the parsed result -- as it is, and after an edit of an enclosing header -- must carry the header's bytes
+# through unchanged.  The predicate is written from the protocol documents and the classes' stated scope, not from parse().
+
+def _undecoded_reason(rec):
+  """why the library's parser is not expected to decode this (library-assembled) header, or None"""
+  t = rec["t"]
+  if t == "arp":
+    why = [k for k, std in (("hwtype", 1), ("prototype", 0x0800), ("hwlen", 6)) if rec.get(k, std) != std]
+    return "arp-" + "+".join(why) if why else None
+  if t == "igmp" and rec["vt"] not in (0x11, 0x12, 0x16, 0x17, 0x22):
+    return "igmp-type"
+  return None
+
+
+# POX class name -> the reference dissector's name of the layer
+_UNDECODED_PROTO = {"arp": "arp", "igmp": "igmp"}
+# the fields in front of the format-dependent part: readable whatever the format (an unparsed object must not misreport them) ...
+_UNDECODED_FIELDS = {"arp": ["hwtype", "prototype", "hwlen", "protolen", "opcode"], "igmp": []}
+# ... when there are at least as many octets as the class states it needs to look at all (arp.MIN_LEN: an Ethernet / IPv4 body;
+# an ARP with hardware addresses of fewer than 6 octets and no padding is shorter)
+_UNDECODED_MINLEN = {"arp": 28, "igmp": 8}
+
+
+def _fields_for(cn, undecoded):
+  return _UNDECODED_FIELDS.get(cn, []) if undecoded else _FIELDS.get(cn, [])
+
+
+def _ui(und):
+  return und[0] if und is not None else None
+
+
+def _carried(d, frame, proto):
+  """the bytes of the frame from the start of the last `proto` layer the reference dissector sees"""
+  offs = [l["off"] for l in d.layers if l["p"] == proto]
+  return frame[offs[-1]:] if offs else None
+
+
 def judge(spec, out, edits=None):
   """assemble, pack, parse, compare, dissect.  Appends violations to out; returns labels info.
   edits: None (no edit-after-parse clause), "all", or an int selecting which editable targets are exercised."""
@@ -614,10 +675,23 @@ def judge(spec, out, edits=None):
     return b
   pl, pend = _chain(p, packet_base)
   ql, qend = _chain(q, packet_base)
+  recs = [r for r in spec if r["t"] != "raw"]
+  und = None                    # (index, dissector name) of the layer the parser, as documented, left undecoded
   ok = True
   for i, x in enumerate(pl):
     cn = type(x).__name__
+    why = _undecoded_reason(recs[i]) if len(recs) == len(pl) and i == len(pl) - 1 and cn in _UNDECODED_PROTO else None
     if i >= len(ql):
+      if why is not None and isinstance(qend, bytes):
+        # one of the two ways of leaving a header undecoded: the enclosing header keeps its bytes as the payload
+        und = (i, _UNDECODED_PROTO[cn])
+        out.label("undecoded:" + why)
+        out.label("undecoded-as:bytes")
+        if qend != _carried(d, b, und[1]):
+          out.fail("undecoded-bytes", "layer %d (%s) of %s is left undecoded, but the bytes kept in its place are %s, on the wire it is %s"
+                   % (i, cn, shape, _short(qend), _short(_carried(d, b, und[1]))), layer=cn)
+          ok = False
+        break
       got = "bytes" if isinstance(qend, bytes) else type(qend).__name__
       out.fail("chain", "layer %d of %s: built a %s, parsing the emitted bytes gives %s (%s)" % (i, shape, cn, got, _short(qend)),
                layer=cn, got=got)
@@ -628,11 +702,20 @@ def judge(spec, out, edits=None):
       out.fail("chain", "layer %d of %s: built a %s, parsed a %s" % (i, shape, cn, type(y).__name__), layer=cn, got=type(y).__name__)
       ok = False
       break
+    fields = _FIELDS.get(cn, [])
     if y.parsed is not True:
-      out.fail("unparsed", "layer %d (%s) of %s: parsed flag is %r after parsing the library's own bytes" % (i, cn, shape, y.parsed), layer=cn)
-      ok = False
-      break
-    for f in _FIELDS.get(cn, []):
+      if why is None:
+        out.fail("unparsed", "layer %d (%s) of %s: parsed flag is %r after parsing the library's own bytes" % (i, cn, shape, y.parsed), layer=cn)
+        ok = False
+        break
+      # the other way: an object of the header's class that says of itself that it is not decoded
+      und = (i, _UNDECODED_PROTO[cn])
+      out.label("undecoded:" + why)
+      out.label("undecoded-as:unparsed-object")
+      fields = _UNDECODED_FIELDS[cn] if len(_carried(d, b, und[1])) >= _UNDECODED_MINLEN[cn] else []
+    elif why is not None:
+      out.label("decoded-although:" + why)
+    for f in fields:
       a = _field_norm(cn, f, getattr(x, f, _MISSING), L)
       c = _field_norm(cn, f, getattr(y, f, _MISSING), L)
       if a != c:
@@ -642,7 +725,7 @@ def judge(spec, out, edits=None):
     out.fail("chain", "%s: parsing found an extra %s below the innermost built layer" % (shape, type(ql[len(pl)]).__name__),
              layer="<end>", got=type(ql[len(pl)]).__name__)
     ok = False
-  if ok:
+  if ok and und is None:         # below an undecoded header nothing is separated: its bytes are judged by the repack clauses
     a = pend if pend is not None else b""
     c = qend if qend is not None else b""
     if a != c:
@@ -664,8 +747,8 @@ def judge(spec, out, edits=None):
         out.fail("repack", "%s: re-serialising the parsed packet differs from the first serialisation at offset %d (%s): %s != %s"
                  % (shape, n, at, b2[n:n + 8].hex(), b[n:n + 8].hex()), at=at)
       elif edits is not None:
-        _edit_clause(b, d, shape, out, edits)
-        _reparent_clause(b, d, spec, shape, out)
+        _edit_clause(b, d, shape, out, edits, und)
+        _reparent_clause(b, d, spec, shape, out, und)
   return b
 
 
@@ -718,11 +801,14 @@ def _other_value(kind, v, L):
   return v ^ 1            # an int of the given width: flipping the low bit stays in range
 
 
-def _edit_targets(layers, L):
-  """[(label, layer index, apply(obj_layers))]: every edit applicable to this parsed chain"""
+def _edit_targets(layers, L, und=None):
+  """[(label, layer index, apply(obj_layers))]: every edit applicable to this parsed chain (und: index of an undecoded layer,
+  whose attributes do not reflect the bytes and are not edited)"""
   out = []
   for i, x in enumerate(layers):
     cn = type(x).__name__
+    if i == _ui(und):
+      continue
     for f, kind in sorted(_EDITABLE.get(cn, {}).items()):
       v = getattr(x, f, None)
       if v is None:
@@ -799,19 +885,19 @@ def _edit_targets(layers, L):
   return out
 
 
-def _snapshot(layers, L):
-  return [(type(x).__name__, {f: _field_norm(type(x).__name__, f, getattr(x, f, _MISSING), L) for f in _FIELDS.get(type(x).__name__, [])})
-          for x in layers]
+def _snapshot(layers, L, und=None):
+  return [(type(x).__name__, {f: _field_norm(type(x).__name__, f, getattr(x, f, _MISSING), L) for f in _fields_for(type(x).__name__, j == _ui(und))})
+          for j, x in enumerate(layers)]
 
 
-def _edit_clause(b, d0, shape, out, edits):
+def _edit_clause(b, d0, shape, out, edits, und=None):
   """metamorphic strengthening of "serialising the parsed result": q = ethernet(b); one field (or one option / TLV value, in place)
   of one layer is set to another valid value; b2 = q.pack(); r = ethernet(b2).  The edited value must read back, every other judged
   field and the payload must be unchanged, b2's lengths and checksums must be valid per the reference, and r.pack() == b2."""
   L = setup()
   pkt, packet_base = L["pkt"], L["packet_base"]
   q0 = pkt.ethernet(b)
-  targets = _edit_targets(_chain(q0, packet_base)[0], L)
+  targets = _edit_targets(_chain(q0, packet_base)[0], L, und)
   if not targets:
     return
   if edits == "all":
@@ -823,10 +909,10 @@ def _edit_clause(b, d0, shape, out, edits):
     label = targets[ti][0]
     q = pkt.ethernet(b)                      # a fresh parse for every edit
     ql, qend = _chain(q, packet_base)
-    before = _snapshot(ql, L)
+    before = _snapshot(ql, L, und)
     i = targets[ti][1]
     try:
-      _edit_targets(ql, L)[ti][2](ql)
+      _edit_targets(ql, L, und)[ti][2](ql)
       for x in ql:                           # documented: a numeric gre.csum is emitted as is; True asks for recomputation
         if type(x).__name__ == "gre" and x.csum is not None:
           x.csum = True
@@ -834,8 +920,8 @@ def _edit_clause(b, d0, shape, out, edits):
     except Exception as e:
       _exc(out, e, "edit", edited=label, what="pack")
       continue
-    out.label("edited:" + label.split(".")[0])
-    after = _snapshot(ql, L)
+    out.label("edited:" + label.split(".")[0] + ("(above-undecoded)" if und is not None else ""))
+    after = _snapshot(ql, L, und)
     # the edit must not disturb any other judged field of the object
     ecls, efield = label.split(".", 1)
     efield = efield.split("[")[0]
@@ -860,14 +946,19 @@ def _edit_clause(b, d0, shape, out, edits):
                % (shape, label, c["name"], c["off"], c["got"], c["want"], b2.hex()[:600]), edited=label, what="wire:" + c["name"])
     if pay0 is not None and (b2[d2.payload[0]:d2.payload[1]] if d2.payload else None) != pay0:
       out.fail("edit", "%s: after setting %s the payload in the re-serialised frame changed" % (shape, label), edited=label, what="payload")
+    if und is not None:
+      pn = und[1]
+      if _carried(d2, b2, pn) != _carried(d0, b, pn):
+        out.fail("edit", "%s: after setting %s the bytes of the undecoded %s header were not carried through: %s, were %s"
+                 % (shape, label, pn, _short(_carried(d2, b2, pn)), _short(_carried(d0, b, pn))), edited=label, what="undecoded-bytes")
     try:
       r = pkt.ethernet(b2)
     except Exception as e:
       _exc(out, e, "edit", edited=label, what="parse")
       continue
     rl, rend = _chain(r, packet_base)
-    got = _snapshot(rl, L)
-    if [c for c, _ in got] != [c for c, _ in after] or any(x.parsed is not True for x in rl):
+    got = _snapshot(rl, L, und)
+    if [c for c, _ in got] != [c for c, _ in after] or any(x.parsed is not True for j, x in enumerate(rl) if j != _ui(und)):
       out.fail("edit", "%s: after setting %s the re-serialised frame parses as %s" % (shape, label, [c for c, _ in got]), edited=label, what="chain")
       continue
     bad = False
@@ -932,7 +1023,7 @@ def _reparent_targets(layers):
   return out
 
 
-def _reparent_clause(b, d0, spec, shape, out):
+def _reparent_clause(b, d0, spec, shape, out, und=None):
   """parse (or assemble) -> build a NEW outer IP header with other addresses -> new.payload = old.payload -> parent.payload = new ->
   pack.  The transport checksums must cover the new addresses, lengths must be right, and the result must survive the round trip."""
   L = setup()
@@ -992,13 +1083,20 @@ def _reparent_clause(b, d0, spec, shape, out):
                  under=label, source=source, what="wire:" + c["name"])
       if pay0 is not None and (b2[d2.payload[0]:d2.payload[1]] if d2.payload else None) != pay0:
         out.fail("reparent", "%s: payload changed under the new %s header" % (shape, label), under=label, source=source, what="payload")
+      if und is not None:
+        pn = und[1]
+        if _carried(d2, b2, pn) != _carried(d0, b, pn):
+          out.fail("reparent", "%s: the bytes of the undecoded %s header of the %s packet were not carried under the new %s header"
+                   % (shape, pn, source, label), under=label, source=source, what="undecoded-bytes")
       try:
         r = pkt.ethernet(b2)
       except Exception as e:
         _exc(out, e, "reparent", under=label, source=source, what="parse")
         continue
-      want = _snapshot(_chain(top, packet_base)[0], L)
-      got = _snapshot(_chain(r, packet_base)[0], L)
+      want = _snapshot(_chain(top, packet_base)[0], L, und)
+      got = _snapshot(_chain(r, packet_base)[0], L, und)
+      if und is not None and len(got) == und[0] and len(want) == und[0] + 1:
+        want = want[:und[0]]      # the undecoded header is kept as bytes by the enclosing header: no object to compare
       if [c for c, _ in got] != [c for c, _ in want]:
         out.fail("reparent", "%s: under the new %s header the frame parses as %s, built %s" % (shape, label, [c for c, _ in got], [c for c, _ in want]),
                  under=label, source=source, what="chain")
@@ -1340,13 +1438,41 @@ def enum_limits(tier):
     yield {"spec": spec, "shape": "limits:" + name, "edit": "all"}
 
 
+def enum_undecoded(tier):
+  """headers the library assembles but its parser leaves undecoded (see _undecoded_reason): every format field at its
+  boundaries and at registered values, each alone and all together, under Ethernet and under a VLAN tag, with and without
+  trailing bytes (minimum-frame padding), for the ARP and RARP ethertypes"""
+  e, v = P._eth(), {"t": "vlan", "pcp": 3, "cfi": 0, "id": 100}
+  fmts = [("hwtype-%d" % hw, {"hwtype": hw}, 6) for hw in (0, 2, 6, 15, 32, 0x0100, 0xffff)]       # 6 IEEE 802, 15 frame relay, 32 InfiniBand
+  fmts += [("prototype-%04x" % pr, {"prototype": pr}, 6) for pr in (0, 0x0008, 0x0805, 0x0801, 0x86dd, 0xffff)]
+  fmts += [("hwlen-%d" % hl, {"hwlen": hl}, hl) for hl in (0, 1, 5, 7, 8, 20, 254, 255)]
+  fmts += [("hwtype-32-hwlen-20", {"hwtype": 32, "hwlen": 20}, 20), ("all-three", {"hwtype": 24, "prototype": 0x86dd, "hwlen": 8}, 8)]
+  pads = (0, 18) if tier == "quick" else (0, 2, 18, 46)
+  for name, kw, hl in fmts:
+    for l2n, l2 in (("eth", [e]), ("vlan", [e, v])):
+      for op, rarp in ((1, False), (2, False), (3, True), (0xffff, False)):
+        for pad in pads:
+          rec = dict({"t": "arp", "op": op, "sha": P.pattern(hl, 1), "spa": P.A1, "tha": P.pattern(hl, 4), "tpa": P.A2}, **kw)
+          if rarp:
+            rec["rarp"] = True
+          yield {"spec": l2 + [rec, P.NOPAY if pad == 0 else P._raw(pad)], "shape": "undecoded:arp-" + name, "edit": "all"}
+  g = bytes([224, 0, 0, 4])
+  for vt in (0, 0x10, 0x13, 0x14, 0x15, 0x18, 0x1e, 0x1f, 0x21, 0x23, 0x30, 0x31, 0x32, 0xff):
+    for n in (0, 1, 12) if tier == "quick" else (0, 1, 2, 12, 13, 255, 1400):
+      for l2n, l2 in (("eth", [e]), ("vlan", [e, v])):
+        yield {"spec": l2 + [P._ip4(ttl=1), {"t": "igmp", "vt": vt, "mrt": n & 0xff, "addr": g, "extra": P.pattern(n, 3)}],
+               "shape": "undecoded:igmp-type-0x%02x" % vt, "edit": "all"}
+
+
 def plan(tier):
   from ..gen import pktspec
   per = 300 if tier == "quick" else 20000
   shapes = pktspec.shapes(1500)
   drivers = [Enum("catalog", lambda: enum_catalog(tier), shards=4),
              Enum("directed-checksum-corners", lambda: enum_directed(tier), shards=2),
-             Enum("length-limits", lambda: enum_limits(tier), shards=4)]
+             Enum("length-limits", lambda: enum_limits(tier), shards=4),
+             Enum("undecoded-formats", lambda: enum_undecoded(tier), shards=2)]
+  shapes.update(pktspec.undecoded_shapes())
   for name in sorted(shapes):
     def mk(name=name):
       return st.tuples(shapes[name], st.integers(0, 999)).map(lambda t, name=name: {"spec": t[0], "shape": name, "edit": t[1]})
